@@ -31,7 +31,7 @@ def bits_for(lo, hi):
 
 
 class N(object):
-    __slots__ = ('op', 'a', 'lo', 'hi', '_z')
+    __slots__ = ('op', 'a', 'lo', 'hi', '_z', 'sz')
 
     def __init__(s, op, a, lo, hi):
         s.op = op
@@ -39,6 +39,11 @@ class N(object):
         s.lo = lo
         s.hi = hi
         s._z = {}
+        n = 1
+        for x in a:
+            if type(x) is N:
+                n += x.sz
+        s.sz = n if n < 100000 else 100000       # tree size (capped): cheap proxy for term size
 
     @property
     def w(s):
@@ -107,6 +112,9 @@ def add(a, b):
         return a
     if a.op == 'c' and a.a[0] == 0:
         return b
+    c = _try_cat(a, b)
+    if c is not None:
+        return c
     return N('+', (a, b), a.lo + b.lo, a.hi + b.hi)
 
 
@@ -121,6 +129,8 @@ def sub(a, b):
         for x, y in ((a.a[0], a.a[1]), (a.a[1], a.a[0])):
             if y.op == 'c' and y.a[0] == c and c > 0 and c & (c - 1) == 0 and x.lo >= 0 and x.hi < 2 * c:
                 k = c.bit_length()
+                if x.op == 'bits' and x.a[1] == 0 and x.a[2] == k and x.a[0].lo >= -c and x.a[0].hi <= c - 1:
+                    return x.a[0]
                 return N('sxt', (x, k), -c, c - 1)
     return N('-', (a, b), a.lo - b.hi, a.hi - b.lo)
 
@@ -155,6 +165,8 @@ def shl(a, k):
         return a
     if a.op == 'c':
         return const(a.a[0] << k)
+    if a.op == '<<':
+        return shl(a.a[0], a.a[1] + k)
     return N('<<', (a, k), a.lo << k, a.hi << k)
 
 
@@ -163,7 +175,81 @@ def shr(a, k):
         return a
     if a.op == 'c':
         return const(a.a[0] >> k)
+    if a.op == '>>':
+        return shr(a.a[0], a.a[1] + k)            # floor shifts compose
+    if a.op == 'bits':
+        X, l0, n0 = a.a
+        return const(0) if k >= n0 else bits(X, l0 + k, n0 - k)
+    if a.op == 'cat':
+        hi_, lo_, k2 = a.a
+        if k >= k2:
+            return shr(hi_, k - k2)
     return N('>>', (a, k), a.lo >> k, a.hi >> k)
+
+
+def _base(n):
+    while n.op == 'ref':
+        n = n.a[0]
+    return n
+
+
+def bits(x, lo, ln):
+    """(x >> lo) & (2^ln - 1): the bit field [lo, lo+ln) of x (two's complement)"""
+    if ln <= 0:
+        return const(0)
+    if x.op == 'c':
+        return const((x.a[0] >> lo) & ((1 << ln) - 1))
+    if x.op == 'bits':
+        X, l0, n0 = x.a
+        if lo >= n0:
+            return const(0)
+        return bits(X, l0 + lo, min(ln, n0 - lo))
+    if x.op == 'cat':
+        hi_, lo_, k = x.a
+        if lo + ln <= k:
+            return bits(lo_, lo, ln)
+        if lo >= k:
+            return bits(hi_, lo - k, ln)
+    if x.op == '>>':
+        return bits(x.a[0], x.a[1] + lo, ln)
+    if x.op == 'sxt' and lo + ln <= x.a[1]:
+        return bits(x.a[0], lo, ln)          # below the sign bit a sign extension changes nothing
+    if lo == 0 and x.lo >= 0 and x.hi < (1 << ln):
+        return x
+    if x.lo >= 0 and (x.hi >> lo) < (1 << ln):
+        # the mask is a no-op: keep the field form (it recombines with its neighbours)
+        if lo == 0:
+            return x
+        top = x.hi >> lo
+        return N('bits', (x, lo, max(1, top.bit_length())), x.lo >> lo, top)
+    hi = (1 << ln) - 1
+    if x.lo >= 0:
+        hi = min(hi, x.hi >> lo)
+    return N('bits', (x, lo, ln), 0, hi)
+
+
+def cat(hi_, lo_, k):
+    """hi * 2^k + lo, with 0 <= lo < 2^k"""
+    if lo_.op == 'c' and lo_.a[0] == 0:
+        return shl(hi_, k)
+    if hi_.op == 'c' and hi_.a[0] == 0:
+        return lo_
+    if hi_.op == 'c' and lo_.op == 'c':
+        return const((hi_.a[0] << k) | lo_.a[0])
+    # adjacent fields of the same value recombine
+    l = lo_
+    if l.op != 'bits' and l.lo >= 0 and l.hi < (1 << k):
+        l = N('bits', (lo_, 0, k), 0, l.hi)          # view lo as the field [0,k) of itself
+    if hi_.op == 'bits' and l.op == 'bits' and _base(hi_.a[0]) is _base(l.a[0]) and l.a[2] == k and hi_.a[1] == l.a[1] + k:
+        return bits(l.a[0], l.a[1], hi_.a[2] + k)
+    return N('cat', (hi_, lo_, k), hi_.lo << k, (hi_.hi << k) + (1 << k) - 1)
+
+
+def _try_cat(a, b):
+    for hi_, lo_ in ((a, b), (b, a)):
+        if hi_.op == '<<' and lo_.lo >= 0 and lo_.hi < (1 << hi_.a[1]):
+            return cat(hi_.a[0], lo_, hi_.a[1])
+    return None
 
 
 def _bitrange(a, b):
@@ -177,6 +263,14 @@ def _bitrange(a, b):
 def band(a, b):
     if a.op == 'c' and b.op == 'c':
         return const(a.a[0] & b.a[0])
+    for x, m in ((a, b), (b, a)):
+        if m.op == 'c' and m.a[0] >= 0 and (m.a[0] & (m.a[0] + 1)) == 0:
+            if m.a[0] == 0:
+                return const(0)
+            return bits(x, 0, m.a[0].bit_length())
+        if m.op == 'c' and m.a[0] > 0 and (m.a[0] & (m.a[0] - 1)) == 0:
+            k = m.a[0].bit_length() - 1          # single-bit mask
+            return shl(bits(x, k, 1), k)
     if b.op == 'c' and b.a[0] >= 0:
         lo, hi = 0, b.a[0]
         if a.lo >= 0:
@@ -203,6 +297,9 @@ def bor(a, b):
         return a
     if a.op == 'c' and a.a[0] == 0:
         return b
+    c = _try_cat(a, b)
+    if c is not None:
+        return c
     lo, hi = _bitrange(a, b)
     return N('|', (a, b), lo, hi)
 
@@ -214,6 +311,9 @@ def bxor(a, b):
         return a
     if a.op == 'c' and a.a[0] == 0:
         return b
+    c = _try_cat(a, b)
+    if c is not None:
+        return c
     lo, hi = _bitrange(a, b)
     return N('^', (a, b), lo, hi)
 
@@ -299,7 +399,25 @@ def refine(n, lo, hi):
 
 # ---------------------------------------------------------------------------
 # lowering:  low(e, n) == z3 BV of width n equal to e mod 2^n
-_TERMS = {}
+#
+# Canonical keys are *interned*: a key is a small int naming a structural tuple whose
+# children are again interned ids, so shared sub-terms (DAGs such as a CRC loop) stay
+# shared and syntactically different Python computations of one expression meet at one id.
+_INTERN = {}        # structural tuple -> id
+_KEYS = []          # id -> structural tuple
+_OBJ = {}           # id -> embedded z3 object (conditions, opaque terms)
+_BUILT = {}         # id -> z3 term
+
+
+def _intern(t, obj=None):
+    i = _INTERN.get(t)
+    if i is None:
+        i = len(_KEYS)
+        _INTERN[t] = i
+        _KEYS.append(t)
+        if obj is not None:
+            _OBJ[i] = obj
+    return i
 
 
 def _ck_full(e):
@@ -313,21 +431,25 @@ def ckey(e, n):
         return z[k]
     op = e.op
     if op == 'c':
-        r = ('c', e.a[0] & ((1 << n) - 1), n)
+        r = _intern(('c', e.a[0] & ((1 << n) - 1), n))
     elif op == 'v':
-        r = ('v', e.a[0], e.w, n)
+        r = _intern(('v', e.a[0], e.w, n))
     elif op == 'z':
-        r = ('z', e.a[0].get_id(), e.a[1], n, e.a[0])
+        r = _intern(('z', e.a[0].get_id(), e.a[1], n), e.a[0])
     elif op == 'sxt':
         x, kk = e.a
-        r = ckey(x, n) if n <= kk else ('sxt', ckey(x, kk), kk, n)
+        r = ckey(x, n) if n <= kk else _intern(('sxt', ckey(x, kk), kk, n))
     elif op == 'ref':
-        w = e.a[0].w
         # value is within e's interval, which fits e.w bits; e.a[0]'s low n bits are exact for n <= width
         ew = e.w
-        r = ckey(e.a[0], n) if n <= ew else ('sxt', ckey(e.a[0], ew), ew, n)
+        r = ckey(e.a[0], n) if n <= ew else _intern(('sxt', ckey(e.a[0], ew), ew, n))
     elif op in ('+', '*', '|', '^'):
-        r = (op, n) + tuple(sorted((ckey(e.a[0], n), ckey(e.a[1], n)), key=_skey))
+        r = None
+        if r is None:
+            x, y = ckey(e.a[0], n), ckey(e.a[1], n)
+            if y < x:
+                x, y = y, x
+            r = _intern((op, n, x, y))
     elif op == '&':
         a, b = e.a
         m = None
@@ -341,44 +463,55 @@ def ckey(e, n):
             r = ckey(x, n)
         elif m is not None and m.bit_length() < n:
             k2 = max(m.bit_length(), 1)
-            inner = ckey(x, k2) if m == (1 << k2) - 1 else ('&', k2, ckey(x, k2), ('c', m, k2))
-            r = ('zxt', inner, k2, n)
+            inner = ckey(x, k2) if m == (1 << k2) - 1 else _intern(('&', k2, ckey(x, k2), _intern(('c', m, k2))))
+            r = _intern(('zxt', inner, k2, n))
         else:
-            r = ('&', n) + tuple(sorted((ckey(a, n), ckey(b, n)), key=_skey))
+            x, y = ckey(a, n), ckey(b, n)
+            if y < x:
+                x, y = y, x
+            r = _intern(('&', n, x, y))
+    elif op == 'bits':
+        X, lo_, ln = e.a
+        m = min(n, ln)
+        need = lo_ + m
+        xw = X.w
+        if need <= xw:
+            inner = _intern(('ext', ckey(X, need), lo_, m)) if lo_ or True else ckey(X, m)
+        else:
+            inner = _intern(('ext', _intern(('sxt', ckey(X, xw), xw, need)), lo_, m))
+        r = inner if m == n else _intern(('zxt', inner, m, n))
+    elif op == 'cat':
+        hi_, lo_, k2 = e.a
+        r = ckey(lo_, n) if n <= k2 else _intern(('cat', ckey(hi_, n - k2), ckey(lo_, k2), k2, n))
     elif op == '-':
-        r = (op, n, ckey(e.a[0], n), ckey(e.a[1], n))
+        r = _intern((op, n, ckey(e.a[0], n), ckey(e.a[1], n)))
     elif op in ('neg', '~'):
-        r = (op, n, ckey(e.a[0], n))
+        r = _intern((op, n, ckey(e.a[0], n)))
     elif op == '<<':
         a, k2 = e.a
-        r = ('c', 0, n) if k2 >= n else ('shl', ckey(a, n - k2), k2, n)
+        r = _intern(('c', 0, n)) if k2 >= n else _intern(('shl', ckey(a, n - k2), k2, n))
     elif op == '>>':
         a, k2 = e.a
         need = n + k2
         aw = a.w
         if need <= aw:
-            r = ('ext', ckey(a, need), k2, n)
+            r = _intern(('ext', ckey(a, need), k2, n))
         else:
-            r = ('ext', ('sxt', ckey(a, aw), aw, need), k2, n)
+            r = _intern(('ext', _intern(('sxt', ckey(a, aw), aw, need)), k2, n))
     elif op == 'ite':
-        r = ('ite', n, e.a[0].get_id(), ckey(e.a[1], n), ckey(e.a[2], n), e.a[0])
+        r = _intern(('ite', n, e.a[0].get_id(), ckey(e.a[1], n), ckey(e.a[2], n)), e.a[0])
     elif op == 'abs':
-        r = ('abs', n, _ck_full(e.a[0]), e.a[0].w)
+        r = _intern(('abs', n, _ck_full(e.a[0]), e.a[0].w))
     elif op == 'bl':
-        r = ('bl', n, _ck_full(e.a[0]), e.a[0].w)
+        r = _intern(('bl', n, _ck_full(e.a[0]), e.a[0].w))
     elif op in ('//', '%'):
         a, b = e.a
         W = max(a.w, b.w) + 1
-        r = (op, n, ckey(a, W), ckey(b, W), W, a.lo >= 0 and b.lo > 0)
+        r = _intern((op, n, ckey(a, W), ckey(b, W), W, a.lo >= 0 and b.lo > 0))
     else:
         raise NotImplementedError(op)
     z[k] = r
     return r
-
-
-def _skey(k):
-    # deterministic total order on keys that ignores embedded z3 objects
-    return repr(tuple(x for x in k if not isinstance(x, z3.ExprRef)))
 
 
 def _fit(t, w, n, signed=True):
@@ -389,17 +522,18 @@ def _fit(t, w, n, signed=True):
     return z3.SignExt(n - w, t) if signed else z3.ZeroExt(n - w, t)
 
 
-def build(k):
-    r = _TERMS.get(_hk(k))
+def build(i):
+    r = _BUILT.get(i)
     if r is not None:
         return r
+    k = _KEYS[i]
     t = k[0]
     if t == 'c':
         r = z3.BitVecVal(k[1], k[2])
     elif t == 'v':
         r = _fit(z3.BitVec(k[1], k[2]), k[2], k[3])
     elif t == 'z':
-        r = _fit(k[4], k[2], k[3])
+        r = _fit(_OBJ[i], k[2], k[3])
     elif t == 'sxt':
         r = z3.SignExt(k[3] - k[2], build(k[1]))
     elif t == 'zxt':
@@ -416,10 +550,12 @@ def build(k):
         r = ~build(k[2])
     elif t == 'shl':
         r = z3.Concat(build(k[1]), z3.BitVecVal(0, k[2]))
+    elif t == 'cat':
+        r = z3.Concat(build(k[1]), build(k[2]))
     elif t == 'ext':
         r = z3.Extract(k[3] + k[2] - 1, k[2], build(k[1]))
     elif t == 'ite':
-        r = z3.If(k[5], build(k[3]), build(k[4]))
+        r = z3.If(_OBJ[i], build(k[3]), build(k[4]))
     elif t == 'abs':
         n, w = k[1], k[3]
         x = build(k[2])
@@ -431,8 +567,8 @@ def build(k):
         n, w = k[1], k[3]
         x = build(k[2])
         r = z3.BitVecVal(0, n)
-        for i in range(w - 1):       # x >= 0: bits 0 .. w-2
-            r = z3.If(z3.Extract(i, i, x) == 1, z3.BitVecVal(i + 1, n), r)
+        for j in range(w - 1):       # x >= 0: bits 0 .. w-2
+            r = z3.If(z3.Extract(j, j, x) == 1, z3.BitVecVal(j + 1, n), r)
     elif t in ('//', '%'):
         n, W, nonneg = k[1], k[4], k[5]
         a = build(k[2])
@@ -450,13 +586,8 @@ def build(k):
         r = _fit(r, W, n)
     else:
         raise NotImplementedError(t)
-    _TERMS[_hk(k)] = r
+    _BUILT[i] = r
     return r
-
-
-def _hk(k):
-    # hashable key without z3 objects (they are identified by get_id already in the key)
-    return tuple(_hk(x) if isinstance(x, tuple) else (None if isinstance(x, z3.ExprRef) else x) for x in k)
 
 
 def low(e, n):
@@ -489,6 +620,10 @@ def to_int(e):
         r = -to_int(a[0])
     elif op == 'ref':
         r = to_int(a[0])
+    elif op == 'bits':
+        r = (to_int(a[0]) / z3.IntVal(1 << a[1])) % z3.IntVal(1 << a[2])
+    elif op == 'cat':
+        r = to_int(a[0]) * (1 << a[2]) + to_int(a[1])
     elif op == 'ite':
         r = z3.If(a[0], to_int(a[1]), to_int(a[2]))
     elif op == 'abs':
@@ -543,6 +678,8 @@ def eq(a, b):
     if MODE == 'int':
         return to_int(a) == to_int(b)
     n = max(a.w, b.w)
+    if ckey(a, n) == ckey(b, n):
+        return z3.BoolVal(True)           # structurally the same term
     return low(a, n) == low(b, n)
 
 
